@@ -131,8 +131,70 @@ def reg_b(t, k, sn):
         yield {"ev": "E%d" % k}
 
 
+TWIN_SDL = """
+directive @tw(n: Int) on OBJECT | ENUM | SCALAR | FIELD_DEFINITION
+scalar Sw
+enum Ew { A }
+type Query { a: Int  e: Ew  s: Sw }
+extend type Query @tw(n: 1) { b: Int @tw(n: 2) }
+extend enum Ew @tw(n: 3) { B }
+extend scalar Sw @tw(n: 4)
+"""
+
+
+def twin_engines(t, tag):
+    """two engines under different names from byte-identical SDL whose extensions add directives: both cook, both answer"""
+    out = []
+    for k in (1, 2):
+        sn = unique_schema_name("twin%s" % tag)
+
+        @t.Directive("tw", schema_name=sn)
+        class Tw:
+            pass
+
+        @t.Scalar("Sw", schema_name=sn)
+        class Sw:
+            def coerce_output(self, v):
+                return v
+
+            def coerce_input(self, v):
+                return v
+
+            def parse_literal(self, ast):
+                return getattr(ast, "value", None)
+
+        @t.Resolver("Query.b", schema_name=sn)
+        async def rb(parent, args, ctx, info):
+            return k
+        try:
+            eng = main_loop().run(t.create_engine(TWIN_SDL, schema_name=sn))
+            r = main_loop().run(eng.execute("{ b }"))
+            if r != {"data": {"b": k}}:
+                out.append("twin engine %d (identical SDL, other schema name) answers %r" % (k, r))
+        except BaseException as e:
+            out.append("twin engine %d (identical SDL, other schema name) does not cook: %r" % (k, e))
+        try:
+            from tartiflette.schema.registry import SchemaRegistry
+            SchemaRegistry._schemas.pop(sn, None)
+        except Exception:
+            pass
+    return out
+
+
+def make_coercer(k):
+    async def coercer(exception, error):
+        # the documented way of enriching an error: complete its extensions in place
+        error.setdefault("extensions", {})
+        if isinstance(error["extensions"], dict):
+            error["extensions"]["servedBy"] = error["extensions"].get("servedBy", []) + [k]
+        return error
+    return coercer
+
+
 def probe(eng, k):
     loop = main_loop()
+    bad = [loop.run(eng.execute(q)) for q in ("{ nope }", "{ v(zz: 1) }", "{ nope }")]
+    served = [[(e.get("extensions") or {}).get("servedBy") for e in (r.get("errors") or [])] for r in bad]
     r = loop.run(eng.execute("{ v sc dv p { __typename } p2 { __typename } }"))
     r2 = loop.run(eng.execute("query ($i: In, $e: E) { q(i: $i, e: $e) }", variables={"i": {}, "e": "X%d" % k}))
     hd = [(loop.run(eng.execute("{ hd }")).get("data") or {}).get("hd") for _ in range(2)]
@@ -148,7 +210,7 @@ def probe(eng, k):
     d = r.get("data") or {}
     return {"resolvers": d.get("v"), "scalars": d.get("sc"), "directives": d.get("dv"),
             "type_resolvers": (d.get("p") or {}).get("__typename"), "subscriptions": (s.get("data") or {}).get("ev"),
-            "sdl": "%s|%s" % ((r2.get("data") or {}).get("q"), (r3.get("data") or {}).get("w")), "shared_scalar_class": hd, "field_type_resolver": (d.get("p2") or {}).get("__typename"),
+            "sdl": "%s|%s" % ((r2.get("data") or {}).get("q"), (r3.get("data") or {}).get("w")), "shared_scalar_class": hd, "errors_served_by": served, "field_type_resolver": (d.get("p2") or {}).get("__typename"),
             "errors": (r.get("errors") or []) + (s.get("errors") or []) + (r2.get("errors") or []) + (r3.get("errors") or [])}
 
 
@@ -173,7 +235,7 @@ def run_history(steps, use_default_for=None, tag=""):
             reg_b(t, b, sn)
         else:
             kw = {} if sn is None else {"schema_name": sn}
-            engines[b] = main_loop().run(t.create_engine(sdl_of(b), **kw))
+            engines[b] = main_loop().run(t.create_engine(sdl_of(b), error_coercer=make_coercer(b), **kw))
     out = {b: probe(e, b) for b, e in engines.items()}
     # forget the names (the registry is process-global and never shrinks by itself)
     try:
@@ -196,6 +258,8 @@ def judge(rec, answers, how):
             mm.append("%s: bundle %d probe errors %r" % (how, i, got["errors"][:2]))
         if exp.get("resolvers") and len(exp["resolvers"]) == 1 and got.get("shared_scalar_class") != ["h1", "h2"]:
             mm.append("%s: engine %d numbers the handles of the scalar class shared through stacked decorators %r, expected ['h1', 'h2']" % (how, i, got.get("shared_scalar_class")))
+        if got.get("errors_served_by") is not None and got["errors_served_by"] != [[[i]], [[i]], [[i]]]:
+            mm.append("%s: errors of engine %d were enriched by %r, expected only by its own error coercer [[[%d]], [[%d]], [[%d]]]" % (how, i, got["errors_served_by"], i, i, i))
         for kind, owners in exp.items():
             want = expected(kind, owners[0]) if len(owners) == 1 else None
             if got.get(kind) != want:
@@ -218,6 +282,8 @@ def job(j):
         if switches >= 2:
             st["distinct"].add(json.dumps(rec["steps"]))
         mm = judge(rec, run_history(steps), "one process")
+        if st["n"] % 7 == 1:
+            mm += twin_engines(base.tartiflette(), "h")
         if j.get("fresh_every") and st["n"] % j["fresh_every"] == 1:
             st["fresh"] += 1
             env = dict(os.environ)
